@@ -8,6 +8,8 @@ mod explore;
 mod fw;
 mod props;
 mod sched;
+mod ugen;
+mod umodel;
 
 use fw::{Prop, RunCfg, Tier};
 
